@@ -120,6 +120,12 @@ func scribble(m *testproto.TestAllTypes) {
 	for _, n := range m.RepeatedNestedMessage {
 		n.A = -777
 	}
+	for k := range m.MapStringString {
+		m.MapStringString[k] = "SCRIBBLED"
+	}
+	if m.MapStringString != nil {
+		m.MapStringString["scribbled"] = "x"
+	}
 }
 
 func richMsg(p *prng, v int32) *testproto.TestAllTypes {
@@ -136,6 +142,12 @@ func richMsg(p *prng, v int32) *testproto.TestAllTypes {
 	if p.n(2) == 0 {
 		s := fmt.Sprint("o", v)
 		m.OptionalString = &s
+	}
+	if p.n(2) == 0 {
+		m.MapStringString = map[string]string{fmt.Sprint("k", v%3): fmt.Sprint("v", v)}
+	}
+	if p.n(3) == 0 {
+		m.MapInt32Int32 = map[int32]int32{v % 3: v}
 	}
 	return m
 }
@@ -213,7 +225,7 @@ func aliasResRun(w *World) {
 		})
 	}
 	nops := 2 + t.Choose(8)
-	maskSets := [][]string{nil, {"default_int32"}, {"default_nested_message.a"}, {"repeated_int32"}, {"default_nested_message", "default_string"}, {"repeated_nested_message"}, {"optional_string"}}
+	maskSets := [][]string{nil, {"default_int32"}, {"default_nested_message.a"}, {"repeated_int32"}, {"default_nested_message", "default_string"}, {"repeated_nested_message"}, {"optional_string"}, {"map_string_string"}, {"map_int32_int32", "default_int32"}, {"repeated_int32", "map_string_string"}}
 	w.Go("w", false, func(task *Task) {
 		for i := 0; i < nops; i++ {
 			task.Yield("op")
@@ -422,7 +434,7 @@ func aliasMetadata(w *World) {
 			task.Yield("op")
 			tr := []string{"ta", "tb", "tc"}[t.Choose(3)]
 			var desc string
-			switch t.Choose(5) {
+			switch t.Choose(7) {
 			case 0, 1:
 				r, _ := m.UpdateTraitMetadata(&traits.TraitMetadata{Name: tr, More: map[string]string{fmt.Sprint("k", i): "v"}})
 				desc = fmt.Sprintf("UpdateTraitMetadata(%s)", tr)
@@ -432,8 +444,14 @@ func aliasMetadata(w *World) {
 				desc = fmt.Sprintf("MergeMetadata(name, traits %s,aa)", tr)
 				mon.track("caller: result of "+desc, r)
 			case 3:
-				r, _ := m.UpdateMetadata(&traits.Metadata{Name: fmt.Sprint("x", i), Traits: []*traits.TraitMetadata{{Name: tr}}})
-				desc = "UpdateMetadata"
+				// plain update: may store the traits in any order
+				r, _ := m.UpdateMetadata(&traits.Metadata{Name: fmt.Sprint("x", i), Traits: []*traits.TraitMetadata{{Name: "zz"}, {Name: tr}, {Name: "aa"}}})
+				desc = "UpdateMetadata(traits zz," + tr + ",aa)"
+				mon.track("caller: result of "+desc, r)
+			case 5:
+				// merge that carries no traits at all
+				r, _ := m.MergeMetadata(&traits.Metadata{Membership: &traits.Metadata_Membership{Subsystem: fmt.Sprint("s", i)}})
+				desc = "MergeMetadata(membership only)"
 				mon.track("caller: result of "+desc, r)
 			default:
 				r, _ := m.GetMetadata()
